@@ -7,6 +7,7 @@ CONSTANTS
     InstKind <- MC_Kind1
     NKeys = 3
     PropChoices <- MC_None
+    DupChoices <- MC_NoDups
     Kinds <- MC_None
     Forms <- MC_None
     MaxFrames = 3
@@ -19,7 +20,7 @@ CONSTANTS
     WithLazy = TRUE
     HasRng = TRUE
     ExplicitKinds <- MC_ExNone
-    PushLastWins = TRUE
+    PushLastWins = FALSE
     WithCancel = TRUE
     CancelOwnIds = FALSE
     CtxForms <- MC_Forms
